@@ -135,13 +135,22 @@ class FsSim:
         return [main, dirs]
 
 
-def make_enforcer(root, defaults, enforce_new_defaults=True, overwrite=True, dirs=DIRS, main=MAIN):
+def make_enforcer(root, defaults, enforce_new_defaults=True, overwrite=True, dirs=DIRS, main=MAIN,
+                  dirs_via='override'):
     from oslo_config import cfg
     from oslo_policy import policy, opts
     conf = cfg.ConfigOpts()
     opts._register(conf)
-    conf(['--config-dir', root], project='verif')
-    conf.set_override('policy_dirs', list(dirs), group='oslo_policy')
+    if dirs_via == 'config_file':
+        # the way a deployment does it: one `policy_dirs = ...` line per directory in a configuration file
+        os.makedirs(os.path.join(root, 'etc'), exist_ok=True)
+        cf = os.path.join(root, 'etc', 'verif.conf')
+        with open(cf, 'w') as f:
+            f.write('[oslo_policy]\n' + ''.join('policy_dirs = %s\n' % d for d in dirs))
+        conf(['--config-file', cf, '--config-dir', root], project='verif')
+    else:
+        conf(['--config-dir', root], project='verif')
+        conf.set_override('policy_dirs', list(dirs), group='oslo_policy')
     conf.set_override('policy_file', main, group='oslo_policy')
     conf.set_override('enforce_new_defaults', enforce_new_defaults, group='oslo_policy')
     e = policy.Enforcer(conf, overwrite=overwrite)
